@@ -534,7 +534,14 @@ func (cs *connState) handleRequest() bool {
 	}
 
 	// Handle the message.
-	r := cs.handle(m)
+	var r message
+	if flush, ok := m.(*tflush); ok && flush.OldTag == tag {
+		// The request to be flushed is this very request: there is nothing
+		// to wait for, and waiting on our own tag would never end.
+		r = &rflush{}
+	} else {
+		r = cs.handle(m)
+	}
 
 	// Clear the tag before sending. That's because as soon as this
 	// hits the wire, the client can legally send another message
